@@ -120,6 +120,7 @@ class Engine(ExprMixin, ExprMixin2, StmtMixin, LoopMixin, CallMixin, CompMixin, 
         cover_ok = feasible(st.pc, 10000)
         res.covers.append((f"{qual}:cover:requires", cover_ok))
         entry = st.fork()
+        self.cur_entry = entry
         is_gen = any(isinstance(n, (ast.Yield, ast.YieldFrom)) for n in ast.walk(fn))
         if is_gen:
             st.yielded = z3.Empty(SeqV)
@@ -163,7 +164,7 @@ class Engine(ExprMixin, ExprMixin2, StmtMixin, LoopMixin, CallMixin, CompMixin, 
         names += [a.arg for a in fn.args.kwonlyargs]
         if fn.args.kwarg:
             names.append("**" + fn.args.kwarg.arg)
-        declared = [p[0] for p in c.params]
+        declared = [p[0] for p in c.params if p[0] != "__closure__"]
         if declared != names:
             raise SourceError(f"stale contract: {c.qual} parameters are {names} in the source but {declared} in the sidecar")
 
@@ -225,7 +226,7 @@ class Engine(ExprMixin, ExprMixin2, StmtMixin, LoopMixin, CallMixin, CompMixin, 
 
     def frame_obligations(self, c, f, entry, j):
         """every heap write of this path hits a location named in `modifies` or an object allocated by this call"""
-        if "no-frame" in c.props:
+        if c is None or "no-frame" in c.props:
             return
         allowed = []      # (component, ref term or None)
         for m in c.modifies:
